@@ -9,11 +9,12 @@ EXTENDS BBEval, TLC, Json
 CONSTANTS K, FnMenu
 Lenient == FALSE       \* cfg: StrictDomains <- Lenient (values only: the harness evaluator decides the domains of inexact arguments)
 
-Env == << [n |-> "x", v |-> Flt(3, 4)], [n |-> "n", v |-> IntV(5)], [n |-> "z", v |-> Num("complex", <<1, 2>>, <<-1, 1>>)],
+Env == << [n |-> "x", v |-> Flt(3, 4)], [n |-> "n", v |-> IntV(5)], [n |-> "p0", v |-> Flt(5, 2)], [n |-> "z", v |-> Num("complex", <<1, 2>>, <<-1, 1>>)],
           [n |-> "A", v |-> Arr("int", << <<IntV(7), IntV(4)>>, <<IntV(1), IntV(6)>> >>)],
           [n |-> "B", v |-> Arr("float", << <<Flt(1, 4), Flt(5, 2), Flt(-3, 1)>> >>)] >>
 
-Leaves == { [t |-> "int", n |-> 2], [t |-> "int", n |-> 3], [t |-> "flt", n |-> 1, d |-> 2], [t |-> "flt", n |-> 5, d |-> 2],
+Leaves == { [t |-> "int", n |-> 2], [t |-> "int", n |-> 3], [t |-> "flt", n |-> 1, d |-> 2], [t |-> "var", x |-> "p0"],      \* p0: an ordinary float (2.5) whose NAME looks like a tdm array name
+           
             [t |-> "cpx", re |-> <<1, 1>>, im |-> <<2, 1>>], [t |-> "pi"], [t |-> "var", x |-> "x"], [t |-> "var", x |-> "n"],
             [t |-> "idx", x |-> "A", e |-> [t |-> "int", n |-> 1]], [t |-> "idx", x |-> "B", e |-> [t |-> "int", n |-> 2]] }
 
@@ -37,12 +38,12 @@ E3 == Unary(E2) \cup Bins(E0, E2) \cup Bins(E1, E1) \cup Bins(E2, E0)
 All == E0 \cup (IF K >= 1 THEN E1 ELSE {}) \cup (IF K >= 2 THEN E2 ELSE {}) \cup (IF K >= 3 THEN E3 ELSE {})
 
 \* second environment: the arrays were indexed and then declared again with other contents and shapes
-Env2 == << [n |-> "x", v |-> Flt(3, 4)], [n |-> "n", v |-> IntV(5)], [n |-> "z", v |-> Num("complex", <<1, 2>>, <<-1, 1>>)],
+Env2 == << [n |-> "x", v |-> Flt(3, 4)], [n |-> "n", v |-> IntV(5)], [n |-> "p0", v |-> Flt(5, 2)], [n |-> "z", v |-> Num("complex", <<1, 2>>, <<-1, 1>>)],
            [n |-> "A", v |-> Arr("int", << <<IntV(9), IntV(8), IntV(3), IntV(6)>> >>)],
            [n |-> "B", v |-> Arr("float", << <<Flt(1, 2)>>, <<Flt(5, 4)>>, <<Flt(4, 1)>> >>)] >>
 \* third environment: the arrays were indexed and then re-bound through array-valued expression variables
 \* ("int A = A*A-A", "float B = B*B": element by element)
-Env3 == << [n |-> "x", v |-> Flt(3, 4)], [n |-> "n", v |-> IntV(5)], [n |-> "z", v |-> Num("complex", <<1, 2>>, <<-1, 1>>)],
+Env3 == << [n |-> "x", v |-> Flt(3, 4)], [n |-> "n", v |-> IntV(5)], [n |-> "p0", v |-> Flt(5, 2)], [n |-> "z", v |-> Num("complex", <<1, 2>>, <<-1, 1>>)],
            [n |-> "A", v |-> Arith("-", Arith("*", Get(Env, "A"), Get(Env, "A")), Get(Env, "A"))],
            [n |-> "B", v |-> Arith("*", Get(Env, "B"), Get(Env, "B"))] >>
 RECURSIVE HasIdx(_)
